@@ -635,6 +635,74 @@ def check_size_hint_steps(ctx, F):
         ctx.unresolved('R10', 'size_hint().0 decreases by one with every item next() yields', 'crate', 'only %d iterators with a custom size_hint found (5 confirmed by reading)' % n, key='R10/size-hint-step/floor')
 
 
+def check_conservative_preskip(ctx, F):
+    """The lazy categorical decoder first skips symbols using float arithmetic only and then searches exactly.  The skip
+    is sound iff every skipped symbol's right cumulative is <= quantile.  With right_cumulative(i) = as_(rcf_i * scale) +
+    (i + 1) <= rcf_i * scale + len, this follows from `rcf_i < (quantile - K) / (c * scale)` provided
+      (1) the loop continues only on the *strict* comparison (it breaks as soon as LB <= rcf),
+      (2) K >= len (the largest integer slack any right cumulative carries), subtracted saturatingly,
+      (3) c >= 1.
+    The three conditions are read off the break predicate of the float-only loop; anything else is unresolved."""
+    lazy = [b for b in F.bodies if b.promoted is None and b.name == 'quantile_function' and b.impl_trait == 'stream::model::DecoderModel'
+            and (b.self_adt or '').endswith('LazyContiguousCategoricalEntropyModel')]
+    key = 'R6/conservative-preskip/lazy'
+    role = 'the float-only pre-skip of the lazy decoder never skips the symbol that contains the quantile'
+    if not lazy:
+        return ctx.unresolved('R6', role, 'stream::model::categorical::lazy_contiguous', 'lazy quantile_function not found', key=key)
+    b = lazy[0]
+    ev, paths = rules.evaluate(b)
+    ctx.touch(b)
+    is_q = lambda x: x == ('arg', 2)
+    found = None
+    for r in paths or []:
+        for t, v, _ in r.preds:
+            if not (t[0] == 'bin' and t[1].endswith('.f') and t[1].split('.')[0] in ('Lt', 'Le', 'Gt', 'Ge')):
+                continue
+            a, c = t[2], t[3]
+            op = t[1].split('.')[0]
+            if op in ('Gt', 'Ge'):
+                a, c = c, a
+                op = {'Gt': 'Lt', 'Ge': 'Le'}[op]
+            # normalised:  a OP c  with OP in Lt/Le
+            if sym.contains(a, is_q) and sym.contains(c, lambda x: isinstance(x, tuple) and x and x[0] == 'loop') and not sym.contains(c, is_q):
+                found = ('lb-left', op, a, c)
+            elif sym.contains(c, is_q) and sym.contains(a, lambda x: isinstance(x, tuple) and x and x[0] == 'loop') and not sym.contains(a, is_q):
+                found = ('lb-right', op, c, a)
+    if not found:
+        return ctx.unresolved('R6', role, b.defpath, 'no float comparison between a quantile-derived bound and a running float sum found', key=key)
+    side, op, LB, rcf = found
+    # (1) strictness: "break iff LB <= rcf"  ==  Le(LB, rcf) true -> break  (continue iff rcf < LB);  equivalently Lt(rcf, LB) true -> continue
+    strict_ok = (side == 'lb-left' and op == 'Le') or (side == 'lb-right' and op == 'Lt')
+    # (2), (3): LB = cast(saturating_sub(q, K)) / (c * scale)
+    if not (LB[0] == 'bin' and LB[1].split('.')[0] == 'Div'):
+        return ctx.unresolved('R6', role, b.defpath, 'bound is not a quotient: %s' % sym.show(LB)[:100], key=key)
+    num, den = LB[2], LB[3]
+    while num[0] == 'cast':
+        num = num[2]
+    problems = []
+    if not strict_ok:
+        problems.append('the skip loop continues on `running sum <= bound` (it should break as soon as bound <= running sum): on equality the symbol that contains the quantile can be skipped')
+    if num[0] == 'call' and str(num[1]).endswith('saturating_sub') and is_q(num[2][0]):
+        K = num[2][1]
+        while K[0] == 'cast':
+            K = K[2]
+        lens = [x for x in sym.subterms(K) if isinstance(x, tuple) and x and x[0] == 'len']
+        d = sym.affine_sub(sym.affine(K), sym.affine(lens[0])) if lens else None
+        if d is None or d[0] or d[1] < 0:
+            problems.append('the bound subtracts %s from the quantile, which is not provably >= the number of symbols (the integer slack a right cumulative can carry)' % sym.show(K)[:60])
+    elif is_q(num):
+        problems.append('the bound uses the quantile itself and does not subtract the integer slack (up to the number of symbols) that every right cumulative carries: symbols whose float mass is below the bound but whose slack lifts them above the quantile are skipped')
+    else:
+        return ctx.unresolved('R6', role, b.defpath, 'numerator not recognised: %s' % sym.show(num)[:100], key=key)
+    scale_ok = sym.contains(den, lambda x: isinstance(x, tuple) and x and x[0] == 'in' and x[1][-1] == ('f', 'scale'))
+    if not scale_ok:
+        return ctx.unresolved('R6', role, b.defpath, 'denominator does not mention self.scale', key=key)
+    if problems:
+        ctx.bad('R6', role, b.defpath, '; '.join(problems) + ' - the decoder view then disagrees with the encoder view (and with the eager model) for those quantiles', key=key, loc=rules.loc(b))
+    else:
+        ctx.ok('R6', role, b.defpath, 'break iff bound <= running sum; bound = (quantile saturating_sub K) / (c * scale) with K >= len', key=key)
+
+
 def facts_callee(t):
     from vlib.facts import callee
     c = callee(t)
@@ -646,6 +714,7 @@ def run(ctx):
     check_quantizer_boundaries(ctx, F)
     check_cdf_search_extent(ctx, F)
     check_size_hint_steps(ctx, F)
+    check_conservative_preskip(ctx, F)
     check_views(ctx, F)
     check_forwarding(ctx, F)
     check_pass_through(ctx, F)
